@@ -141,6 +141,15 @@ def rule_pseudo_header(tree: Tree) -> RuleResult:
                                          f"{fn}: IP{v} pseudo header is built from {got}, RFC layout is {want[v]} "
                                          f"(a {l4.upper()} routine must take the upper-layer length from the {l4.upper()} segment)", m.line(f.node)))
             r.sample({"function": fn, "arm": v, "fields": [str(g) for g in got]})
+        # dpkt fills in a zero checksum field when an IP object is serialised (IP.__bytes__ recomputes the transport checksum of its payload in place):
+        # serialising packet.ip — even inside a log call — before the comparison turns a wrong 0x0000 field into the right value
+        r.instances += 1
+        ser = [src(c, 50) for c in body_walk(f.node) if isinstance(c, ast.Call) and (
+            (dotted(c.func) in ("bytes", "bytearray", "str") and c.args and (dotted(c.args[0]) or "").split(".")[-1] in ("ip", "eth", "ethernet", "ip6"))
+            or (isinstance(c.func, ast.Attribute) and c.func.attr in ("pack", "__bytes__", "pack_hdr") and (dotted(c.func.value) or "").split(".")[-1] in ("ip", "eth", "ethernet", "ip6")))]
+        r.ob(not ser, Finding("T9c", f"checksums:{fn}:no-ip-serialisation",
+                              f"{fn}: `{ser[0] if ser else ''}` serialises the dpkt IP object; dpkt recomputes a zero transport checksum field in place while doing so, which changes "
+                              f"the field the routine is about to compare", m.line(f.node)))
         # checksum field zeroed at the right offset of a copy of the l4 bytes, then appended, then summed
         r.instances += 1
         zero_ok = False
